@@ -341,6 +341,10 @@ func genC03(r *rng.R, tier string, steer bool, idx int) *trace.Trace {
 				objects = append(objects, path)
 			case "create_dataset":
 				objects = append(objects, path)
+			case "create_dense_group", "create_group_with_links":
+				// also a hard-link target (its object header is rewritten with a
+				// reference count message by the first hard link)
+				objects = append(objects, path)
 			}
 		}
 	}
